@@ -126,6 +126,13 @@ def _job(args):
         else:
             pol = gen_policy(r)
             ops, stats = busgen.history(r, n_ops, weights=W, max_conns=5, uids=UIDS)
+        if seed % 3 == 0 and r.random() < 0.7:
+            # an eavesdropper that owns nothing: every unicast is also judged for it as a proposed recipient, and rules keyed
+            # on the destination's names must then look at *its* names, not at the DESTINATION field
+            from ..bus import method_call as _mc, BUS_PATH as _bp
+            ops[2:2] = [("connect", 90, 0, False), ("send", 90, _mc(1, BUS, _bp, BUS, "Hello").marshal()),
+                        ("send", 90, _mc(2, BUS, _bp, BUS, "AddMatch", "s", [r.choice([b"eavesdrop='true'", b"eavesdrop='true',type='method_call'"])]).marshal())]
+            stats["eavesdropper"] = 1
         if r.random() < 0.6:
             # the configuration is replaced while everybody stays connected: from then on the new rules decide, also about names
             # a connection already owns and calls that are already outstanding
@@ -303,6 +310,7 @@ def run(ctx):
     absent_field_scenarios(ctx)
     reload_scenarios(ctx)
     ctx.coverage["histories"]["generated-policy"]["histories_with_a_reload"] = sum(1 for r in good if r["stats"].get("reload"))
+    ctx.coverage["histories"]["generated-policy"]["histories_with_an_eavesdropper_owning_nothing"] = sum(1 for r in good if r["stats"].get("eavesdropper"))
     diff, got_reply, refused = f16_scenario(ctx)
     ctx.oblige("F16 scenario: model = daemon on <deny send_path> against a reply without path", "correspondence", diff is None,
                json.dumps(diff)[:300] if diff else "")
